@@ -13,7 +13,6 @@ import (
 	"fmt"
 	"math/big"
 	"os"
-	"runtime"
 	"sort"
 	"strings"
 	"sync"
@@ -870,6 +869,7 @@ func concurrentRounds(args sim.Args, v *sim.Verdict, rp replay, s *sut, history 
 		var wg sync.WaitGroup
 		start := make(chan struct{})
 		var ready atomic.Int64
+		allReady := make(chan struct{})
 		for i := 0; i < n; i++ {
 			round[i].OffsetNs = off
 			kc := classify(cc.Remedies[round[i].Remedy], round[i])
@@ -883,13 +883,11 @@ func concurrentRounds(args sim.Args, v *sim.Verdict, rp replay, s *sut, history 
 					}
 				}()
 				<-start
-				// spin barrier (bounded, scheduling only): release the calls as close together as possible
-				ready.Add(1)
-				for spin := 0; ready.Load() < int64(n) && spin < 200000; spin++ {
-					if spin%64 == 63 {
-						runtime.Gosched()
-					}
+				// barrier (scheduling only): the last goroutine to arrive lets all calls go at once
+				if ready.Add(1) == int64(n) {
+					close(allReady)
 				}
+				<-allReady
 				call := tick.Add(1)
 				passed, status, problem := s.call(fmt.Sprintf("c%d-r%d-%d", rp.Case, ri, i), round[i])
 				ret := tick.Add(1)
